@@ -15,7 +15,7 @@ VARIABLE l
 tvars == <<vars, l>>
 R == Rec[l + 1]
 Hint(r) == [on |-> TRUE, s |-> r.io]
-Reset(r) == /\ input' = r.input /\ pos' = 0 /\ rbuf' = <<>> /\ eof' = FALSE /\ readable' = FALSE
+Reset(r) == /\ input' = r.input /\ pos' = 0 /\ rbuf' = <<>> /\ eof' = FALSE /\ readable' = FALSE /\ cended' = FALSE
             /\ out' = <<>> /\ done' = FALSE /\ errUsed' = FALSE /\ lastPend' = FALSE /\ act' = NoAct
 \* predicate mode: only what was observed is installed; polls after the end of the run are not judged
 Free(r) == IF done THEN UNCHANGED vars
@@ -24,15 +24,15 @@ Free(r) == IF done THEN UNCHANGED vars
                 /\ pos' = r.pos /\ eof' = IoHas(r.io, "eof") /\ errUsed' = (errUsed \/ IoHas(r.io, "err"))
                 /\ lastPend' = (r.res.k = "pending")
                 /\ act' = [op |-> "poll", io |-> r.io, res |-> r.res]
-                /\ UNCHANGED <<input, rbuf, readable>>
+                /\ UNCHANGED <<input, rbuf, readable, cended>>
 Step(r) == \/ r.ev = "reset" /\ Reset(r)
            \/ r.ev = "poll" /\ (IF Strict THEN PollNext(Hint(r)) /\ act'.res = r.res /\ pos' = r.pos ELSE Free(r))
-TInit == /\ input = <<>> /\ pos = 0 /\ rbuf = <<>> /\ eof = FALSE /\ readable = FALSE
+TInit == /\ input = <<>> /\ pos = 0 /\ rbuf = <<>> /\ eof = FALSE /\ readable = FALSE /\ cended = FALSE
          /\ out = <<>> /\ done = TRUE /\ errUsed = FALSE /\ lastPend = FALSE /\ act = NoAct /\ l = 0
 TNext == l < Len(Rec) /\ l' = l + 1 /\ Step(R)
 TSpec == TInit /\ [][TNext]_tvars
 \* predicate-mode form of C13_Progress: an observed run never panics or runs away
-C13_NoPanic == act.res.k \in {"none", "ok", "tail", "err", "ioerr", "pending"}
+C13_NoPanic == act.res.k \in {"none", "ok", "tail", "end", "err", "ioerr", "pending"}
 TraceAccepted ==
   LET n == TLCGet("stats").diameter - 1 IN
     /\ PrintT(<<"TRACE_MATCHED", n, Len(Rec)>>)
